@@ -310,7 +310,7 @@ package banderwagon
 
 // The conversion closure of BatchNormalize, run by parallel.Execute on the ranges of a partition (rule R2): for the pairwise
 // distinct element pointers of its range it multiplies X and Y by the prepared inverse and sets Z to one; nothing else changes.
-// The alignment clause is Go typing: two *Element pointers into one object are whole Elements apart.
+// The equal-or-disjoint clause is Go typing: two *Element pointers into one object are the same pointer or do not overlap.
 //@ func BatchNormalize$1
 //@ props C19 C13
 //@ prelude field batchspec
@@ -323,7 +323,7 @@ package banderwagon
 //@ requires 0 <= start && start <= end && end <= len(*dedupedElements) && end <= len(*invs)
 //@ requires forall k int :: start <= k && k < end ==> pobj(DE, Do, k) >= 1 && allocated(pobj(DE, Do, k)) && pobj(DE, Do, k) != IV && poff(DE, Do, k) >= 0
 //@ requires forall j int, k int :: start <= j && j < k && k < end ==> !(pobj(DE, Do, j) == pobj(DE, Do, k) && poff(DE, Do, j) == poff(DE, Do, k))
-//@ requires forall j int, k int :: start <= j && j < k && k < end && pobj(DE, Do, j) == pobj(DE, Do, k) ==> (poff(DE, Do, j) - poff(DE, Do, k)) % 3 == 0
+//@ requires forall j int, k int :: start <= j && j < k && k < end && pobj(DE, Do, j) == pobj(DE, Do, k) ==> (poff(DE, Do, j) == poff(DE, Do, k) || poff(DE, Do, j) + 3 <= poff(DE, Do, k) || poff(DE, Do, k) + 3 <= poff(DE, Do, j))
 //@ ensures forall k int :: start <= k && k < end ==> heapFp()[pobj(DE, Do, k)][poff(DE, Do, k)] == HP[pobj(DE, Do, k)][poff(DE, Do, k)] * HP[IV][Io + k] && heapFp()[pobj(DE, Do, k)][poff(DE, Do, k) + 1] == HP[pobj(DE, Do, k)][poff(DE, Do, k) + 1] * HP[IV][Io + k] && heapFp()[pobj(DE, Do, k)][poff(DE, Do, k) + 2] == fp_one
 //@ ensures forall o int, c int :: allocated(o) && (forall k int :: start <= k && k < end ==> !(o == pobj(DE, Do, k) && poff(DE, Do, k) <= c && c < poff(DE, Do, k) + 3)) ==> heapFp()[o][c] == HP[o][c]
 //@ modifies * in Fp
@@ -355,7 +355,7 @@ package banderwagon
 //@ let Eo = off(elements)
 //@ let HI = heapInt()
 //@ requires forall k int :: 0 <= k && k < len(elements) ==> pobj(EL, Eo, k) >= 1 && allocated(pobj(EL, Eo, k)) && poff(EL, Eo, k) >= 0
-//@ requires forall j int, k int :: 0 <= j && j < len(elements) && 0 <= k && k < len(elements) && pobj(EL, Eo, j) == pobj(EL, Eo, k) ==> (poff(EL, Eo, j) - poff(EL, Eo, k)) % 3 == 0
+//@ requires forall j int, k int :: 0 <= j && j < len(elements) && 0 <= k && k < len(elements) && pobj(EL, Eo, j) == pobj(EL, Eo, k) ==> (poff(EL, Eo, j) == poff(EL, Eo, k) || poff(EL, Eo, j) + 3 <= poff(EL, Eo, k) || poff(EL, Eo, k) + 3 <= poff(EL, Eo, j))
 //@ ensures @C19 err != nil <==> (exists k int :: 0 <= k && k < len(elements) && HP[pobj(EL, Eo, k)][poff(EL, Eo, k) + 2] == fp_zero)
 //@ ensures @C19 err != nil ==> (forall o int, c int :: allocated(o) ==> heapFp()[o][c] == HP[o][c])
 //@ ensures @C19 err == nil ==> (forall k int :: 0 <= k && k < len(elements) ==> heapFp()[pobj(EL, Eo, k)][poff(EL, Eo, k)] == HP[pobj(EL, Eo, k)][poff(EL, Eo, k)] * fp_inv(HP[pobj(EL, Eo, k)][poff(EL, Eo, k) + 2]) && heapFp()[pobj(EL, Eo, k)][poff(EL, Eo, k) + 1] == HP[pobj(EL, Eo, k)][poff(EL, Eo, k) + 1] * fp_inv(HP[pobj(EL, Eo, k)][poff(EL, Eo, k) + 2]) && heapFp()[pobj(EL, Eo, k)][poff(EL, Eo, k) + 2] == fp_one)
